@@ -145,6 +145,16 @@ private:
             return chol_MBM.info();
         }
 
+        // A pivot that is not positive means that M'BM is not numerically positive definite:
+        // the columns of M are (numerically) dependent and cannot be B-orthonormalized.
+        // Dividing by the square root of such a pivot and keeping the real part would
+        // silently turn columns of M into zero or garbage
+        if (!(chol_MBM.vectorD().array() > Scalar(0)).all())
+        {
+            m_info = Eigen::NumericalIssue;
+            return Eigen::NumericalIssue;
+        }
+
         SparseComplexMatrix Upper_MBM = chol_MBM.matrixU().template cast<Complex>();
         ComplexVector D_MBM_vec = chol_MBM.vectorD().template cast<Complex>();
 
